@@ -1175,7 +1175,18 @@ impl Interp {
 		};
 		for root in ids {
 			let want = self.canon_model_tree(col, root);
-			let got = self.read_tree(col, root)?;
+			let got = match self.read_tree(col, root) {
+				// a tree that is dead in the model may be half removed by a worker thread while
+				// it is being walked here
+				// (known finding locked-reader-after-queued-dereference: the read lock taken here
+				// comes after the dereference was submitted)
+				Err(f) if want.is_none() && self.background && f.sig == "tree-node-missing" && std::env::var("PDBV_STRICT_DEAD").is_err() => {
+					self.excluded_known.set(self.excluded_known.get() + 1);
+					None
+				},
+				Err(f) if f.sig == "tree-node-missing" => return Err(Failure::new(f.sig.clone(), format!("{} [col {col} root {root}, live in the model: {}, queue_empty {}, pipeline {:?}]", f.detail, want.is_some(), self.queue_empty(), self.db().verif_pipeline_state()))),
+				r => r?,
+			};
 			self.reads += 1;
 			match (&want, &got) {
 				(None, None) => {},
